@@ -39,3 +39,184 @@ class C08(Spec):
         return {'family': 'int', 'cfg': cfg.to_json(), 'prog': prog, 'seed': seed,
                 'rand_seed': seed // self.K,
                 'start_delays': sample_start_delays(random.Random(f'C08d/{seed}'), cfg.m)}
+
+
+from . import monitors as M  # noqa: E402
+from .runner import run_case  # noqa: E402
+
+
+def _int_case(tag, seed, tier, effects, K=1, m_min=2, t_min=0, size=None, **genkw):
+    rng = random.Random(f'{tag}/{seed // K}')
+    cfg = sample_cfg(rng, tier, m_min=m_min, t_min=t_min)
+    prog = intfam.gen(rng, cfg, tier, effects=effects, size=size, **genkw)
+    return {'family': 'int', 'cfg': cfg.to_json(), 'prog': prog, 'seed': seed, 'rand_seed': seed // K,
+            'start_delays': sample_start_delays(random.Random(f'{tag}d/{seed}'), cfg.m)}
+
+
+@_register
+class C09(Spec):
+    check_id = 'C09'
+    family = 'int'
+    title = 'unique labels, exactly-once consumption'
+    technique = 'deterministic simulation + wire monitor (independent frame parser) + receive/buffer accounting'
+    quick = {'runs': 2500, 'wall': 75}
+    thorough = {'runs': 500000, 'wall': 900}
+    expected_probes = ('frames',)
+
+    def make_case(self, seed, tier):
+        return _int_case('C09', seed, tier, effects=(seed % 2 == 0), K=2)
+
+    def monitors(self, case):
+        return [M.WireMonitor()]
+
+
+@_register
+class C11(Spec):
+    check_id = 'C11'
+    family = 'int'
+    title = 'consistent degree-t sharings'
+    technique = "deterministic simulation + god's-eye interpolation of all parties' shares (independent Lagrange oracle)"
+    quick = {'runs': 2000, 'wall': 75}
+    thorough = {'runs': 400000, 'wall': 900}
+    expected_probes = ('shares_checked', 'shares_value_checked')
+
+    def make_case(self, seed, tier):
+        return _int_case('C11', seed, tier, effects=(seed % 3 == 0), K=1)
+
+    def monitors(self, case):
+        return [M.ShareMonitor()]
+
+    def nontrivial(self, case, res):
+        return case['cfg']['m'] >= 2 and res.info.get('probes', {}).get('shares_checked', 0) > 0
+
+
+@_register
+class C14(Spec):
+    check_id = 'C14'
+    family = 'int'
+    title = 'dealt sharings have full threshold degree'
+    technique = 'deterministic simulation + dealing monitor (secrets-seam draw log, independent polynomial reconstruction, wire comparison)'
+    quick = {'runs': 2000, 'wall': 75}
+    thorough = {'runs': 400000, 'wall': 900}
+    expected_probes = ('dealings', 'dealt_secrets')
+
+    def make_case(self, seed, tier):
+        return _int_case('C14', seed, tier, effects=False, t_min=1, m_min=3)
+
+    def monitors(self, case):
+        return [M.DealMonitor()]
+
+    def nontrivial(self, case, res):
+        return case['cfg']['t'] >= 1 and res.info.get('probes', {}).get('dealt_secrets', 0) > 0
+
+
+@_register
+class C35(Spec):
+    check_id = 'C35'
+    family = 'int'
+    title = 'barriers and shutdown wait for all started MPyC coroutines'
+    technique = 'deterministic simulation + task registry invariants at barrier return / connection close / exit'
+    quick = {'runs': 2500, 'wall': 75}
+    thorough = {'runs': 500000, 'wall': 900}
+    expected_probes = ('barrier_returns', 'close_calls', 'mpyc_tasks')
+
+    def make_case(self, seed, tier):
+        c = _int_case('C35', seed, tier, effects=True, K=2)
+        # make sure barriers occur, and that work is left un-awaited at the end
+        rng = random.Random(f'C35b/{seed // 2}')
+        stmts = c['prog']['stmts']
+        for _ in range(rng.randint(1, 2)):
+            stmts.insert(rng.randint(1, len(stmts)), ['barrier', [], [], {'name': 'x'}])
+        return c
+
+    def monitors(self, case):
+        return [M.TaskMonitor()]
+
+
+@_register
+class C36(Spec):
+    check_id = 'C36'
+    family = 'int'
+    title = 'a crashed or disconnected party never makes others output wrong values'
+    technique = ('deterministic simulation with crash injection: fault-free twin run fixes the execution, one party '
+                 'is crash-stopped at a chosen loop iteration of it (mid-frame cuts, FIN/RST/silent), prefix oracle on survivors')
+    quick = {'runs': 1500, 'wall': 75}
+    thorough = {'runs': 300000, 'wall': 900}
+    expected_probes = ('crash_fired', 'crash_midframe', 'survivor_outputs_checked')
+    rule = ('one evaluation = fault-free twin run + the same seeded execution with one party crash-stopped at a chosen '
+            'iteration; distinct = sha256(configuration, program, crash plan, tape); non-trivial = the crash fired while '
+            'the victim was alive and at least one survivor had not finished')
+
+    def make_case(self, seed, tier):
+        rng = random.Random(f'C36/{seed}')
+        cfg = sample_cfg(rng, tier, m_min=2)
+        prog = intfam.gen(rng, cfg, tier, effects=True, size=rng.randint(2, 7))
+        # several intermediate outputs so that there are outputs to be right or wrong about
+        S = [st[1][0] for st in prog['stmts'] if st[1] and st[0] not in ('start_output', 'ucoro', 'input_list',
+                                                                         'input_all', 'if_swap_l', 'mklist')]
+        for _ in range(rng.randint(1, 3)):
+            pos = rng.randint(1, len(prog['stmts']))
+            defined = {o for st in prog['stmts'][:pos] for o in st[1]}
+            cands = [v for v in S if v in defined]
+            if cands:
+                prog['stmts'].insert(pos, ['await_output', [], [rng.choice(cands)], {'receivers': None}])
+        case = {'family': 'int', 'cfg': cfg.to_json(), 'prog': prog, 'seed': seed,
+                'start_delays': sample_start_delays(rng, cfg.m), 'opts': {'keep_events': True}}
+        twin = run_case(case, keep_world=True)
+        if not twin.ok:
+            return case          # the fault-free run itself is wrong: report that
+        w = twin.world
+        ev = w.events
+        victim = rng.randrange(cfg.m)
+        wrote = [e[0] for e in ev if e[1] == victim and e[5] > 0]
+        r = rng.random()
+        if wrote and r < 0.6:
+            step = rng.choice(wrote) + rng.choice((0, 1, 1, 2))     # right after it wrote frames
+        elif r < 0.8:
+            step = rng.randint(1, max(1, twin.steps // 4))          # early: handshake / connection set-up
+        elif r < 0.9:
+            step = max(1, twin.steps - rng.randint(0, 40))          # during shutdown
+        else:
+            step = rng.randint(1, twin.steps)
+        w.close()
+        how = rng.choice(('fin', 'fin', 'rst', 'silent'))
+        cut = {}
+        rc = rng.random()
+        if rc < 0.35:
+            cut = {'*': rng.random()}
+        elif rc < 0.6:
+            cut = {'*': rng.choice((1, 2, 5, 11, 12, 13, 14))}      # bytes: inside header / right after it
+        elif rc < 0.75:
+            cut = {str(rng.randrange(cfg.m)): rng.random()}
+        case = dict(case, tape=twin.tape, crash={'pid': victim, 'step': step, 'how': how, 'cut_frac': cut})
+        case['opts'] = {}
+        return case
+
+    def nontrivial(self, case, res):
+        return bool(res.info.get('probes', {}).get('crash_fired'))
+
+    def monitors(self, case):
+        return [CrashProbe()]
+
+
+class CrashProbe:
+    def finish(self, w, res):
+        pr = res.info.setdefault('probes', {})
+        cp = w.crash_plan
+        if not cp or not cp.get('done') or cp.get('noop'):
+            return
+        unfinished = [p for p in w.parties if not p.crashed and p.result is None]
+        pr['crash_fired'] = 1
+        pr['crash_midframe'] = int(w.stats.get('crash_cut_midstream', 0) > 0)
+        pr['survivors_blocked_or_failed'] = len(unfinished)
+        pr['survivors_finished'] = sum(1 for p in w.parties if not p.crashed and p.result is not None)
+        n = 0
+        for p in w.parties:
+            if p.crashed:
+                continue
+            ctx = p.obs.get('ctx')
+            n += len(ctx.log) if ctx is not None else 0
+            if p.result is not None:
+                n += len(p.result.get('out', []))
+        pr['survivor_outputs_checked'] = n
+        pr['survivor_' + ('stopped' if any(p.stopped for p in w.parties) else 'not_stopped')] = 1
